@@ -710,6 +710,25 @@ def gorillaFind (d : Doc) (req : Req) : Outcome := gorillaFindL true d req
 /-- gorillamux after the repair of the path-item servers leak -/
 def gorillaFindFixed (d : Doc) (req : Req) : Outcome := gorillaFindL false d req
 
+/-! ## percent-encoded paths: which representation of the URL path each router matches on -/
+
+/-- a request as it arrives: `req.path` is the decoded path (`url.Path`), `epath` the escaped one (`url.EscapedPath()`,
+    what is written on the wire); the two are the same string when nothing is percent-encoded -/
+structure Wire where
+  req   : Req
+  epath : Str
+  deriving DecidableEq, Repr
+
+def Wire.raw (w : Wire) : Req := { w.req with path := w.epath }
+
+/-- gorillamux creates its mux router with `UseEncodedPath()`: templates are matched against the escaped path and the
+    extracted values are escaped strings -/
+def gorillaFindW (d : Doc) (w : Wire) : Outcome := gorillaFind d w.raw
+
+/-- the legacy router matches `url.Path` (decoded) when the document has no servers; when it has, `Servers.MatchURL` works
+    on `url.String()` (escaped), and the remaining path it returns is what the trie sees -/
+def legacyFindW (d : Doc) (w : Wire) : Outcome := legacyFind d (if d.servers = [] then w.req else w.raw)
+
 /-- the shape of document on which the leak can show: in matching order, a path item with servers precedes one without -/
 def leakShape : List PathDecl → Bool
   | [] => false
